@@ -90,6 +90,11 @@ def kname(kind):
 def _response_obj(media, kind, comps, components_responses, name="R"):
     if media == "none":
         return {"description": "d"}
+    if media == "none-empty-content":            # COUNT zero: a content map without any media type is a response without a body
+        return {"description": "d", "content": {}}
+    if media == "none-empty-content-ref":
+        components_responses[name] = {"description": "d", "content": {}}
+        return {"$ref": f"#/components/responses/{name}"}
     sch = _schema(kind, comps)
     mt = {} if sch is None else {"schema": sch}
     if media == "xml-then-json":
@@ -117,6 +122,8 @@ def _mk(table, labels, key):
     responses, spec = {}, []
     for i, (status, media, kind) in enumerate(table):
         responses[str(status)] = _response_obj(media, kind, comps, cresp, name=f"R{i}")
+        if media.startswith("none-"):
+            media = "none"
         spec.append({"status": status, "media": media, "kind": kind, "samples": [] if media == "none" else [list(x) for x in _samples(kind)]})
     doc = gen.base_doc(comps or None, paths={"/r": {"get": {"operationId": "getR", "responses": responses}}})
     if cresp:
@@ -142,13 +149,14 @@ def cases(tier):
                 yield _mk([(status, media, kind)], [f"status={status}", f"media={media}", f"kind={kname(kind)}"],
                           f"{media}/{kname(kind)}")
     # two responses
-    firsts = [(200, "application/json", "model_ref"), (200, "application/json", ["array", "model_ref"]), (200, "none", "no-schema"),
+    firsts = [(200, "application/json", "model_ref"), (200, "application/json", ["array", "model_ref"]), (200, "none", "no-schema"), (200, "none-empty-content", "no-schema"),
               (201, "text/plain", "str"), (200, "application/octet-stream", "file"), (200, "application/json", "date"),
               (200, "application/json", "any"), (200, "application/json", "no-schema"),
               (200, "text/plain", "int"), (200, "text/plain", "num"), (200, "text/html", "bool"),
               # a download typed as text / JSON whose schema is binary, declared BEFORE ordinary text / JSON responses
               (200, "text/csv", "file"), (200, "application/json", "file")]
     seconds = [(404, "application/json", "model2"), (404, "application/json", "model_ref"), (404, "none", "no-schema"),
+               (204, "none-empty-content", "no-schema"), (404, "none-empty-content-ref", "no-schema"),
                (500, "text/plain", "str"), (204, "none", "no-schema"), ("default", "application/json", "model2"),
                ("2XX", "application/json", "model2"), ("abc", "application/json", "model2"), (404, "application/xml", "model2"),
                (404, "application/json", "enum_str"), (404, "application/json", ["array", "int"]), (404, "text/html", "str"), (201, "text/plain", "int")]
